@@ -121,3 +121,32 @@ Print Assumptions C16_no_ip_never_refused_by_insert.
 Theorem C16_no_ip_not_counted : forall s v, vsub v = None -> in_sub s v = false.
 Proof. intros s v H. unfold in_sub. rewrite H. reflexivity. Qed.
 Print Assumptions C16_no_ip_not_counted.
+
+(* ... and neither does update_node (the record-update path), provided a STORED record that is
+   equal to the offered one (Rust ==; equal vid in the model) has no IPv4 address either - true in
+   every table the service builds, where the /24 is a function of the record (hypothesis [subof]
+   of C16_subnet_limits_reachable) *)
+Theorem C16_no_ip_never_refused_by_update_node :
+  forall c t k v state now,
+  bfilter c = Some ip_bucket_filter -> tfilter c = Some ip_table_filter -> vsub v = None ->
+  (forall o, In o (table_values t) -> val_eqb o v = true -> vsub o = None) ->
+  snd (t_update_node c t k v state now) <> UFailed FTableFilter /\
+  snd (t_update_node c t k v state now) <> UFailed FBucketFilter.
+Proof. intros c t k v state now Hb Ht. exact (no_ip_update_never_filtered c Hb Ht t k v state now). Qed.
+Print Assumptions C16_no_ip_never_refused_by_update_node.
+
+(* the hypothesis on the table of Proofs/SubnetExamples.v (both limits reached): node 32 of /24
+   number 7 announces a record without IPv4 address and is updated *)
+Example C16_no_ip_update_example :
+  let t := fst (run true sx_cfg (new_table 0) sx_ops) in
+  let v := {| vid := 77777; vsub := None |} in
+  (forall o, In o (table_values t) -> val_eqb o v = true -> vsub o = None) /\
+  snd (t_update_node sx_cfg t 32 v (Some true) 2) = UUpdated.
+Proof.
+  cbv zeta. split; [|vm_compute; reflexivity].
+  assert (F : Forall (fun o => val_eqb o {| vid := 77777; vsub := None |} = false)
+                     (table_values (fst (run true sx_cfg (new_table 0) sx_ops)))).
+  { vm_compute. repeat constructor. }
+  intros o Ho E. rewrite Forall_forall in F. rewrite (F o Ho) in E. discriminate.
+Qed.
+Print Assumptions C16_no_ip_update_example.
